@@ -180,6 +180,38 @@ func runRemoteWatch(t *testing.T, c rwCase) (coq string, problems []string, flag
 				refErr = backing.WatchKind(ctx, kindMD, refCh, kopts...)
 				remErr = remote.WatchKind(ctx, kindMD, remCh, kopts...)
 			}
+		case "kindfrombm", "singlefrombm":
+			// a watch that itself starts from a bookmark: the head of the log, taken from a short-lived direct watch
+			var head []byte
+
+			{
+				hctx, hstop := context.WithCancel(ctx)
+				hch := make(chan state.Event)
+
+				if err := backing.WatchKind(hctx, kindMD, hch, state.WithBootstrapBookmark(true)); err != nil {
+					t.Fatal(err)
+				}
+
+				e := <-hch
+				head = e.Bookmark
+
+				hstop()
+				synctest.Wait()
+			}
+
+			if c.Kind == "kindfrombm" {
+				kopts = append(kopts, state.WithKindStartFromBookmark(head))
+				startBoth = func() {
+					refErr = backing.WatchKind(ctx, kindMD, refCh, kopts...)
+					remErr = remote.WatchKind(ctx, kindMD, remCh, kopts...)
+				}
+			} else {
+				single = true
+				startBoth = func() {
+					refErr = backing.Watch(ctx, oneMD, refCh, state.WithStartFromBookmark(head))
+					remErr = remote.Watch(ctx, oneMD, remCh, state.WithStartFromBookmark(head))
+				}
+			}
 		case "selector":
 			kopts = append(kopts, state.WatchWithLabelQuery(selector))
 			startBoth = func() {
@@ -224,6 +256,12 @@ func runRemoteWatch(t *testing.T, c rwCase) (coq string, problems []string, flag
 		}
 
 		startBoth()
+
+		if refErr != nil && remErr != nil && state.IsInvalidWatchBookmarkError(refErr) == state.IsInvalidWatchBookmarkError(remErr) {
+			flags["setup_refused_on_both_sides"] = true
+
+			return
+		}
 
 		if refErr != nil || remErr != nil {
 			problems = append(problems, fmt.Sprintf("watch-setup: ref=%v remote=%v", refErr, remErr))
@@ -609,7 +647,7 @@ func containsStr(s, sub string) bool {
 
 func genRemoteWatch(r *rng) rwCase {
 	c := rwCase{
-		Kind:     pick(r, []string{"single", "kind", "kindbm", "bootstrap", "aggregated", "selector"}),
+		Kind:     pick(r, []string{"single", "kind", "kindbm", "bootstrap", "aggregated", "selector", "kindfrombm", "singlefrombm"}),
 		Cap:      pick(r, []int{4, 8, 8, 64}),
 		Gap:      1,
 		NoRetry:  r.chance(1, 10),
@@ -683,7 +721,7 @@ func rwKey(problem string) string {
 
 func TestC13(t *testing.T) {
 	dir := outDir(t)
-	rep := newReport("C13", "the real client adapter (single, kind, kind with initial bookmark, kind+bootstrap, aggregated, label-selected watches; retries on/off) over an in-memory transport on top of the real server and inmem state (buffer capacities 4/8/64) under synctest: "+
+	rep := newReport("C13", "the real client adapter (single, kind, kind with initial bookmark, kind and single started from the head bookmark, kind+bootstrap, aggregated, label-selected watches; retries on/off) over an in-memory transport on top of the real server and inmem state (buffer capacities 4/8/64) under synctest: "+
 		"scripted stream resets after N messages, failed dials, lost ready messages, a foreign server incarnation, outages long enough for the bookmark to leave the buffer, re-dials failing for longer than the backoff allows; writes continue during outages. "+
 		"Recorded per case: the total order of commits and transport events (replayed on RemoteWatch.step), every event on the client channel, and a direct watch with the same options on the backing state; "+
 		"the Go oracle checks remote == prefix of direct (+Errored), no gap/duplicate/reordering/re-bootstrap, completeness while alive; non-trivial = at least two kinds of fault occurred")
@@ -710,7 +748,7 @@ func TestC13(t *testing.T) {
 		r := newRng(seed(), "C13")
 
 		// corpus: every single break position on a short stream, per flavour
-		for _, k := range []string{"single", "kind", "kindbm", "bootstrap", "aggregated", "selector"} {
+		for _, k := range []string{"single", "kind", "kindbm", "bootstrap", "aggregated", "selector", "kindfrombm", "singlefrombm"} {
 			for b := 1; b <= 5; b++ {
 				cases = append(cases, rwCase{Kind: k, Cap: 8, Gap: 1, Pre: 2, FinalNap: int64(time.Hour), Plan: []watchFault{{BreakAfter: b}},
 					Steps: []rwStep{
